@@ -100,7 +100,26 @@ func (g *gl) leanType(t types.Type) string {
 	case *types.Array:
 		return "List " + paren(g.leanType(u.Elem()))
 	case *types.Map:
+		if isEmptyStruct(u.Elem()) { // a set: kept as an ascending duplicate-free list of its keys
+			return "List " + paren(g.leanType(u.Key()))
+		}
 		return "List (" + g.leanType(u.Key()) + " × " + g.leanType(u.Elem()) + ")"
+	case *types.Struct:
+		if u.NumFields() == 0 {
+			return "Unit"
+		}
+		var fs []string
+		for i := 0; i < u.NumFields(); i++ {
+			fs = append(fs, paren(g.leanType(u.Field(i).Type())))
+		}
+		if len(fs) == 1 {
+			return fs[0]
+		}
+		return "(" + strings.Join(fs, " × ") + ")"
+	case *types.Pointer:
+		if st, ok := u.Elem().Underlying().(*types.Struct); ok && st.NumFields() == 1 {
+			return g.leanType(st.Field(0).Type()) // *T for a one-field struct T: the field
+		}
 	}
 	if isErr(t) {
 		return "GoErr"
@@ -130,7 +149,7 @@ func (g *gl) zero(t types.Type) string {
 		case types.String:
 			return "[]"
 		}
-	case *types.Slice:
+	case *types.Slice, *types.Map:
 		return "[]"
 	case *types.Array:
 		return fmt.Sprintf("(List.replicate %d %s)", u.Len(), g.zero(u.Elem()))
@@ -139,9 +158,43 @@ func (g *gl) zero(t types.Type) string {
 	return ""
 }
 
+func isEmptyStruct(t types.Type) bool {
+	st, ok := t.Underlying().(*types.Struct)
+	return ok && st.NumFields() == 0
+}
+
+// projection of field k of an n-field struct kept as a right-nested tuple
+func tupleProj(x string, k, n int) string {
+	if n == 1 {
+		return x
+	}
+	p := x
+	for i := 0; i < k; i++ {
+		p += ".2"
+	}
+	if k < n-1 {
+		p += ".1"
+	}
+	return p
+}
+
 func isErr(t types.Type) bool {
 	n, ok := t.(*types.Named)
 	return ok && n.Obj().Pkg() == nil && n.Obj().Name() == "error"
+}
+
+// the struct type behind an expression of struct or pointer-to-struct type
+func (g *gl) structOf(e ast.Expr) (*types.Struct, bool) {
+	tv, ok := g.info.Types[e]
+	if !ok || tv.Type == nil {
+		return nil, false
+	}
+	t := tv.Type
+	if p, ok := t.Underlying().(*types.Pointer); ok {
+		t = p.Elem()
+	}
+	st, ok := t.Underlying().(*types.Struct)
+	return st, ok && st.NumFields() > 0
 }
 
 // receiver-field method call r.<field>.<method>() of the reader being translated
@@ -188,6 +241,8 @@ func isList(t types.Type) bool {
 	switch u := t.Underlying().(type) {
 	case *types.Slice, *types.Array:
 		return true
+	case *types.Map:
+		return isEmptyStruct(u.Elem())
 	case *types.Basic:
 		return u.Kind() == types.String
 	}
@@ -221,6 +276,22 @@ func (e ex) opnd() string { // as an operand of an infix operator
 }
 
 func atomE(s string) ex { return ex{text: s, atom: true} }
+
+// Go identifiers that are reserved words in Lean get a trailing underscore.
+var leanKeywords = map[string]bool{"at": true, "from": true, "fun": true, "do": true, "then": true, "end": true, "open": true, "in": true,
+	"by": true, "def": true, "theorem": true, "where": true, "instance": true, "structure": true, "class": true, "namespace": true,
+	"section": true, "variable": true, "universe": true, "export": true, "mutual": true, "macro": true, "syntax": true, "notation": true,
+	"have": true, "show": true, "match": true, "with": true, "let": true, "mut": true, "unless": true, "try": true, "catch": true,
+	"finally": true, "local": true, "private": true, "protected": true, "partial": true, "unsafe": true, "opaque": true, "axiom": true,
+	"example": true, "abbrev": true, "inductive": true, "Type": true, "Prop": true, "Sort": true, "calc": true, "using": true,
+	"suffices": true, "obtain": true, "this": true, "nomatch": true, "nofun": true, "deriving": true, "extends": true, "set_option": true}
+
+func ln(name string) string {
+	if leanKeywords[name] {
+		return name + "_"
+	}
+	return name
+}
 
 func (g *gl) constant(e ast.Expr) (ex, bool) {
 	tv, ok := g.info.Types[e]
@@ -270,7 +341,7 @@ func (g *gl) ident(id *ast.Ident) ex {
 			g.globals[o.Name()] = true
 			return atomE("g_" + o.Name())
 		}
-		return atomE(o.Name())
+		return atomE(ln(o.Name()))
 	case *types.Nil:
 		return atomE("[]")
 	}
@@ -313,7 +384,38 @@ func (g *gl) expr(e ast.Expr) ex {
 		return g.expr(v.X)
 	case *ast.Ident:
 		return g.ident(v)
+	case *ast.CompositeLit:
+		t := g.typeOf(v)
+		if st, ok := t.Underlying().(*types.Struct); ok && len(v.Elts) == st.NumFields() && st.NumFields() > 0 {
+			var parts []string
+			for _, el := range v.Elts {
+				if _, isKV := el.(*ast.KeyValueExpr); isKV {
+					g.die(v, "keyed struct literal")
+				}
+				parts = append(parts, g.expr(el).opnd())
+			}
+			if len(parts) == 1 {
+				return ex{text: parts[0]}
+			}
+			return atomE("(" + strings.Join(parts, ", ") + ")")
+		}
+		if m, ok := t.Underlying().(*types.Map); ok && isEmptyStruct(m.Elem()) && len(v.Elts) == 0 {
+			return atomE("[]")
+		}
 	case *ast.SelectorExpr:
+		if st, ok := g.structOf(v.X); ok {
+			if _, isLoc := v.X.(*ast.Ident); !isLoc || g.structLoc[g.objOf(v.X.(*ast.Ident))] == nil {
+				for k := 0; k < st.NumFields(); k++ {
+					if st.Field(k).Name() == v.Sel.Name {
+						x := g.expr(v.X)
+						if x.act {
+							return ex{text: "(← " + x.text + ")" + strings.TrimPrefix(tupleProj("X", k, st.NumFields()), "X"), atom: true}
+						}
+						return ex{text: tupleProj(x.arg(), k, st.NumFields()), atom: true}
+					}
+				}
+			}
+		}
 		if id, ok := v.X.(*ast.Ident); ok {
 			if fs, ok := g.structLoc[g.objOf(id)]; ok {
 				for _, f := range fs {
@@ -358,6 +460,13 @@ func (g *gl) expr(e ast.Expr) ex {
 	case *ast.UnaryExpr:
 		if v.Op == token.NOT {
 			return ex{text: "!" + g.expr(v.X).arg()}
+		}
+		if v.Op == token.AND {
+			if cl, ok := v.X.(*ast.CompositeLit); ok {
+				if st, ok := g.typeOf(cl).Underlying().(*types.Struct); ok && st.NumFields() == 1 && len(cl.Elts) == 1 {
+					return g.expr(cl.Elts[0]) // &T{x} for a one-field struct: the field
+				}
+			}
 		}
 		if v.Op == token.SUB && isInt(g.typeOf(v.X)) {
 			return ex{text: "-" + g.expr(v.X).arg()}
@@ -414,7 +523,17 @@ func (g *gl) binary(v *ast.BinaryExpr) ex {
 			return ex{text: "shrInt " + l.arg() + " " + r.arg(), act: true}
 		}
 	case token.EQL, token.NEQ, token.LSS, token.LEQ, token.GTR, token.GEQ:
+		if yid, ok := v.Y.(*ast.Ident); ok && yid.Name == "nil" && isList(lt) && g.rdKind == "" {
+			// nil and empty slices are not distinguished (GoRt): x == nil reads "x is empty"
+			if v.Op == token.EQL {
+				return ex{text: "len " + l.arg() + " == 0"}
+			}
+			return ex{text: "len " + l.arg() + " != 0"}
+		}
 		if isErr(lt) && (v.Op == token.EQL || v.Op == token.NEQ) {
+			return infix(map[token.Token]string{token.EQL: "==", token.NEQ: "!="}[v.Op])
+		}
+		if b, ok := lt.Underlying().(*types.Basic); ok && (b.Kind() == types.Bool || b.Kind() == types.UntypedBool) && (v.Op == token.EQL || v.Op == token.NEQ) {
 			return infix(map[token.Token]string{token.EQL: "==", token.NEQ: "!="}[v.Op])
 		}
 		if isList(lt) && (v.Op == token.EQL || v.Op == token.NEQ) {
@@ -526,6 +645,14 @@ func (g *gl) call(c *ast.CallExpr) ex {
 				if pn.Imported().Path() == "bytes" && f.Sel.Name == "Compare" && len(c.Args) == 2 {
 					return ex{text: "cmp " + g.expr(c.Args[0]).arg() + " " + g.expr(c.Args[1]).arg()}
 				}
+				if pn.Imported().Path() == "sort" && f.Sel.Name == "Search" && len(c.Args) == 2 {
+					if fl, ok := c.Args[1].(*ast.FuncLit); ok && len(fl.Type.Params.List) == 1 && len(fl.Type.Params.List[0].Names) == 1 && len(fl.Body.List) == 1 {
+						if r, ok := fl.Body.List[0].(*ast.ReturnStmt); ok && len(r.Results) == 1 {
+							j := fl.Type.Params.List[0].Names[0].Name
+							return ex{text: "searchGo " + g.expr(c.Args[0]).arg() + " (fun " + j + " => do return " + g.expr(r.Results[0]).opnd() + ")", act: true}
+						}
+					}
+				}
 				if pn.Imported().Path() == "slices" && f.Sel.Name == "Clone" && len(c.Args) == 1 {
 					return g.expr(c.Args[0]) // values are immutable here
 				}
@@ -619,6 +746,13 @@ func (g *gl) assignTo(w *wr, lhs ast.Expr, tok token.Token, rhs ast.Expr) {
 		w.line(bindText("", name, r))
 		return
 	case *ast.IndexExpr:
+		if m, ok := g.typeOf(l.X).Underlying().(*types.Map); ok && isEmptyStruct(m.Elem()) && tok == token.ASSIGN {
+			if id, ok := l.X.(*ast.Ident); ok {
+				n := g.lvName(id)
+				w.line(n + " := setInsert " + n + " " + g.expr(l.Index).arg())
+				return
+			}
+		}
 		id, ok := l.X.(*ast.Ident)
 		if !ok || !isList(g.typeOf(l.X)) {
 			break
@@ -678,7 +812,10 @@ func (g *gl) stmt(w *wr, s ast.Stmt) {
 					ann = " : " + g.leanType(g.typeOf(v.Rhs[0]))
 				}
 			}
-			w.line(bindText(kw, id.Name+ann, g.expr(v.Rhs[0])))
+			if _, ok := v.Rhs[0].(*ast.CompositeLit); ok {
+				ann = " : " + g.leanType(g.typeOf(v.Rhs[0]))
+			}
+			w.line(bindText(kw, ln(id.Name)+ann, g.expr(v.Rhs[0])))
 			return
 		}
 		if len(v.Lhs) == len(v.Rhs) {
@@ -703,6 +840,10 @@ func (g *gl) stmt(w *wr, s ast.Stmt) {
 			return
 		}
 	case *ast.BranchStmt:
+		if v.Tok == token.CONTINUE && v.Label == nil {
+			w.line("continue")
+			return
+		}
 		if g.rdKind == "bytes" && v.Tok == token.BREAK && v.Label != nil && v.Label.Name == g.rdLabel {
 			w.line("broke := true")
 			w.line("break")
@@ -738,12 +879,57 @@ func (g *gl) stmt(w *wr, s ast.Stmt) {
 			w.line("(none : Option Unit)")
 			return
 		}
+		if c, ok := v.X.(*ast.CallExpr); ok {
+			if id, ok := c.Fun.(*ast.Ident); ok && id.Name == "delete" && len(c.Args) == 2 {
+				if m, ok := c.Args[0].(*ast.Ident); ok {
+					n := g.lvName(m)
+					w.line(n + " := setErase " + n + " " + g.expr(c.Args[1]).arg())
+					return
+				}
+			}
+			if sel, ok := c.Fun.(*ast.SelectorExpr); ok {
+				if pk, ok := sel.X.(*ast.Ident); ok {
+					if pn, ok := g.info.Uses[pk].(*types.PkgName); ok && pn.Imported().Path() == "sort" {
+						if sel.Sel.Name == "Ints" && len(c.Args) == 1 {
+							if x, ok := c.Args[0].(*ast.Ident); ok {
+								n := g.lvName(x)
+								w.line(n + " := sortInts " + n)
+								return
+							}
+						}
+						if sel.Sel.Name == "Slice" && len(c.Args) == 2 {
+							// sort.Slice(x, func(i, j int) bool { return less(x[i], x[j]) })
+							x, ok1 := c.Args[0].(*ast.Ident)
+							fl, ok2 := c.Args[1].(*ast.FuncLit)
+							if ok1 && ok2 && len(fl.Body.List) == 1 {
+								if r, ok := fl.Body.List[0].(*ast.ReturnStmt); ok && len(r.Results) == 1 {
+									if lc, ok := r.Results[0].(*ast.CallExpr); ok && len(lc.Args) == 2 {
+										if lf, ok := lc.Fun.(*ast.Ident); ok {
+											if callee, ok := g.funcs[lf.Name]; ok && callee.found && len(callee.globals) == 0 {
+												n := g.lvName(x)
+												w.line(n + " := sortByLess (fun a b => (" + lf.Name + " a b).getD false) " + n)
+												return
+											}
+										}
+									}
+								}
+							}
+						}
+					}
+				}
+			}
+		}
 		if g.rdKind == "bytes" && g.rdCall(v.X) == "UnreadByte" {
 			w.line("pos := pos - 1")
 			return
 		}
 		if c, ok := v.X.(*ast.CallExpr); ok {
 			if id, ok := c.Fun.(*ast.Ident); ok && id.Name == "copy" && len(c.Args) == 2 {
+				if lv, ok := c.Args[0].(*ast.Ident); ok {
+					n := g.lvName(lv)
+					w.line(n + " := copyInto " + n + " " + g.expr(c.Args[1]).arg())
+					return
+				}
 				// copy(LV[:], src)
 				if se, ok := c.Args[0].(*ast.SliceExpr); ok && se.Low == nil && se.High == nil {
 					src := g.expr(c.Args[1])
@@ -1022,7 +1208,7 @@ func (g *gl) forStmt(w *wr, v *ast.ForStmt) {
 	if rng == "" {
 		g.die(v, "for loop shape")
 	}
-	w.line("for " + iv.Name + " in " + rng + " do")
+	w.line("for " + ln(iv.Name) + " in " + rng + " do")
 	w.ind++
 	g.block(w, v.Body.List)
 	w.ind--
@@ -1032,13 +1218,18 @@ func (g *gl) rangeStmt(w *wr, v *ast.RangeStmt) {
 	if v.Tok != token.DEFINE || v.Key == nil {
 		g.die(v, "range form")
 	}
-	k := v.Key.(*ast.Ident)
+	k := &ast.Ident{Name: ln(v.Key.(*ast.Ident).Name)}
 	xt := g.typeOf(v.X)
 	x := g.expr(v.X)
 	if x.act {
 		g.die(v, "range over an expression with effects")
 	}
+	_, isMap := xt.Underlying().(*types.Map)
 	switch {
+	case isMap && v.Value == nil:
+		// Go ranges over a map in an unspecified order; the translation uses ascending key order, which is
+		// only meaningful for order-insensitive bodies (the translated code sorts what it collects)
+		w.line("for " + k.Name + " in " + x.opnd() + " do")
 	case isInt(xt) && v.Value == nil:
 		w.line("for " + k.Name + " in upTo " + x.arg() + " do")
 	case isList(xt) && v.Value == nil:
@@ -1047,7 +1238,7 @@ func (g *gl) rangeStmt(w *wr, v *ast.RangeStmt) {
 		if _, isStr := xt.Underlying().(*types.Basic); isStr {
 			g.die(v, "range over a string (runes)")
 		}
-		val := v.Value.(*ast.Ident)
+		val := &ast.Ident{Name: ln(v.Value.(*ast.Ident).Name)}
 		if k.Name == "_" {
 			w.line("for " + val.Name + " in " + x.opnd() + " do")
 		} else {
@@ -1167,24 +1358,69 @@ func (g *gl) findFunc(name string, nth int) (*ast.FuncDecl, string) {
 	return nil, ""
 }
 
-func (g *gl) function(name, rel, placeholder string) {
+func (g *gl) function(name, rel, placeholder string) { g.funcOrMethod("", name, name, rel, placeholder) }
+
+// method translates `func (r *T) name(...)` of a plain struct T: the receiver's fields become parameters r_<Field>.
+func (g *gl) method(recvType, name, lname, rel, placeholder string) {
+	g.funcOrMethod(recvType, name, lname, rel, placeholder)
+}
+
+func (g *gl) funcOrMethod(recvType, goName, name, rel, placeholder string) {
 	g.guarded(name, placeholder, func() (string, []string) {
-		fd, file := g.findFunc(name, 0)
+		var fd *ast.FuncDecl
+		file := ""
+		if recvType == "" {
+			fd, file = g.findFunc(goName, 0)
+		} else {
+			for _, f := range g.files {
+				for _, d := range f.Decls {
+					if x, ok := d.(*ast.FuncDecl); ok && x.Name.Name == goName && x.Recv != nil && len(x.Recv.List) == 1 && len(x.Recv.List[0].Names) == 1 {
+						t := x.Recv.List[0].Type
+						if st, ok := t.(*ast.StarExpr); ok {
+							t = st.X
+						}
+						if id, ok := t.(*ast.Ident); ok && id.Name == recvType {
+							fd, file = x, filepath.Base(g.fset.Position(x.Pos()).Filename)
+						}
+					}
+				}
+			}
+		}
 		if fd == nil || fd.Body == nil {
 			g.die(nil, "function not found")
 		}
 		g.findMutated(fd.Body)
 		g.yieldT = ""
 		g.curFunc, g.lits = name, nil
+		g.structLoc = map[types.Object][]string{}
 		defer func() { g.curFunc = "" }()
 		sig := fd.Type
 		var params []string
 		var shadow []string
+		if recvType != "" {
+			rn := fd.Recv.List[0].Names[0]
+			robj := g.info.Defs[rn]
+			rt := robj.Type()
+			if p, ok := rt.Underlying().(*types.Pointer); ok {
+				rt = p.Elem()
+			}
+			st, ok := rt.Underlying().(*types.Struct)
+			if !ok {
+				g.die(fd, "receiver is not a struct")
+			}
+			var fs []string
+			for i := 0; i < st.NumFields(); i++ {
+				f := st.Field(i)
+				fs = append(fs, f.Name())
+				params = append(params, "("+rn.Name+"_"+f.Name()+" : "+g.leanType(f.Type())+")")
+			}
+			g.structLoc[robj] = fs
+		}
 		for _, fl := range sig.Params.List {
 			for _, pn := range fl.Names {
-				params = append(params, "("+pn.Name+" : "+g.leanType(g.info.Defs[pn].Type())+")")
+				params = append(params, "("+ln(pn.Name)+" : "+g.leanType(g.info.Defs[pn].Type())+")")
 				if g.mut[g.info.Defs[pn]] {
-					shadow = append(shadow, pn.Name)
+					shadow = append(shadow, ln(pn.Name))
 				}
 			}
 		}
@@ -1230,8 +1466,12 @@ func (g *gl) function(name, rel, placeholder string) {
 		g.yieldT = ""
 		globals := g.sortedGlobals()
 		all := strings.TrimSpace(g.globalParams(globals) + " " + strings.Join(params, " "))
+		src := goName
+		if recvType != "" {
+			src = "(" + recvType + ")." + goName
+		}
 		text := fmt.Sprintf("def %s_Found : Bool := true\n%s/-- translated from %s in %s/%s%s -/\ndef %s %s : Option %s := do\n%s",
-			name, strings.Join(g.lits, ""), name, rel, file, doc, name, all, paren(resT), w.b.String())
+			name, strings.Join(g.lits, ""), src, rel, file, doc, name, all, paren(resT), w.b.String())
 		return text, globals
 	})
 }
@@ -1856,6 +2096,18 @@ func goLean(repo, out string) {
 	g4.writerMethod("fastq_Write", "Fastq", "Write", "formats/fastq",
 		"def fastq_Write (f_Name : "+B+") (f_Sequence : "+B+") (f_Quals : "+B+") (w : Wr) : Option (GoErr × Wr) := none", nil)
 	w.WriteString(g4.funcs["fastq_Write"].text + "\n")
+	// regions: the whole package
+	g6 := loadPkg(filepath.Join(repo, "regions"))
+	const EV, IV = "(Int × Int × Bool)", "(Int × List Int)"
+	g6.function("eventLess", "regions", "def eventLess (a : "+EV+") (b : "+EV+") : Option Bool := none")
+	g6.function("keys", "regions", "def keys (m : List Int) : Option (List Int) := none")
+	g6.function("cp", "regions", "def cp (a : List Int) : Option (List Int) := none")
+	g6.function("NewIndex", "regions", "def NewIndex (starts : List Int) (ends : List Int) : Option (List "+IV+") := none")
+	g6.method("Index", "At", "Index_At", "regions", "def Index_At (idx_idx : List "+IV+") (i : Int) : Option (List Int) := none")
+	for _, n := range g6.order {
+		w.WriteString(g6.funcs[n].text)
+		w.WriteString("\n")
+	}
 	g5 := loadPkg(filepath.Join(repo, "formats", "sam"))
 	g5.writerMethod("sam_Write", "SAM", "Write", "formats/sam",
 		"def sam_Write (s_Qname : "+B+") (s_Flag : Int) (s_Rname : "+B+") (s_Pos : Int) (s_Mapq : Int) (s_Cigar : "+B+") (s_Rnext : "+B+") (s_Pnext : Int) (s_Tlen : Int) (s_Seq : "+B+") (s_Qual : "+B+") (s_TagTexts : "+BB+") (w : Wr) : Option (GoErr × Wr) := none",
